@@ -67,7 +67,17 @@ class Worker:
     # -- fork-per-run
     def fork(self, fn, timeout=None):
         """Run fn() in a forked child; returns its JSON-able result, or
-        {'harness_error': ...} / {'timeout': True}."""
+        {'harness_error': ...} / {'timeout': True}.  A child that was killed
+        by a signal from outside (nothing inside a simulated run can send a
+        real one: os.kill is a seam) is run again: the run is a pure
+        function of its plan."""
+        for attempt in range(3):
+            r = self._fork_once(fn, timeout)
+            if not (isinstance(r, dict) and r.get("killed_by_signal")):
+                return r
+        return r
+
+    def _fork_once(self, fn, timeout=None):
         timeout = timeout or self.fork_timeout
         r, w = os.pipe()
         sys.stdout.flush()
@@ -121,7 +131,12 @@ class Worker:
         _, status = os.waitpid(pid, 0)
         data = b"".join(chunks)
         if not data:
-            return {"harness_error": "child died, status %r" % (status,)}
+            r_ = {"harness_error": "child died, status %r" % (status,)}
+            if os.WIFSIGNALED(status) and os.WTERMSIG(status) in (
+                    signal.SIGTERM, signal.SIGKILL, signal.SIGINT,
+                    signal.SIGHUP):
+                r_["killed_by_signal"] = os.WTERMSIG(status)
+            return r_
         return json.loads(data)
 
     def execute_forked(self, plan):
